@@ -8,14 +8,15 @@ the observation lists are compared inside Coq with typed equality.
 Oracle: plain Python, from the property text: the i-th output is the Python operator applied to the i-th
 values of the operand streams (operand streams of non-literal leaves are obtained by running a fresh
 instance of the leaf on its own)."""
-import operator
+import operator, math, contextlib
+import pat_common as _pc
 from pat_common import *
 
 PROP = "C08"
 META = {
  "engine": "P-pattern-algebra",
- "text": "Coq theorems (Props/C08.v, closed under the global context) prove, for an ARBITRARY operator semantics (a Section variable) and arbitrary operand objects of the pattern model: the i-th output of every PBinOp class is the operator applied to the i-th operand values, a rest on either side gives a rest, the output stops at the first index at which either operand stops (left operand first), & yields the conjunction of the truth values, -p is 0 - p_i and abs(p) is |p_i| with rests kept; what the Python operators build (dunder table incl. reflected forms) denotes the operator with the operands in the written order; and the law lifts to operator expression trees of any depth by induction. The model (Pat/Step.v, a clause-by-clause transcription of core.py) is tied to the repository on every run: operator expressions built through the Python operators for all 15 operators and &, -x, abs(x), pattern/scalar on either side, ints/floats/bools/rests, equal and unequal lengths, raising operands, nestings to depth 3 (5 % deeper) are run on both sides and compared inside Coq; an independent oracle applies Python's own operators to the operand streams and supplies the failing input.",
- "note": "Trusted: Coq kernel + VM; the harness; Val.binop as a description of CPython's arithmetic on the exact (dyadic) value domain - the C08 theorems do not depend on it (operator semantics is a Section variable), only the correspondence does; results outside that domain (non-dyadic floats, complex, huge ints) are judged by the oracle only and discarded from the model comparison. After the first exception the operand streams are no longer aligned (the left operand has advanced, the right has not): the law is judged up to and including the first StopIteration/exception.",
+ "text": "Coq theorems (Props/C08.v, closed under the global context) prove, for an ARBITRARY operator semantics (a Section variable) and arbitrary operand objects of the pattern model: the i-th output of every PBinOp class is the operator applied to the i-th operand values, a rest on either side gives a rest, the output stops at the first index at which either operand stops (left operand first), & yields the conjunction of the truth values, -p is 0 - p_i and abs(p) is |p_i| with rests kept; what the Python operators build (dunder table incl. reflected forms) denotes the operator with the operands in the written order; and the law lifts to operator expression trees of any depth by induction. The model (Pat/Step.v, a clause-by-clause transcription of core.py) is tied to the repository on every run: operator expressions built through the Python operators for all 15 operators and &, -x, abs(x), pattern/scalar on either side, ints/floats/bools/rests, equal and unequal lengths, raising operands, nestings to depth 3 (5 % deeper) are run on both sides and compared inside Coq; an independent oracle applies Python's own operators to the operand streams in the written nesting order, compares floats bit for bit (incl. the sign of a zero) and supplies the failing input. Rounding-sensitive strata (two-operator chains and nested trees with scalars at every level over float themes: non-dyadic decimals, cancellation with 1e16, values near 2**53, subnormals, signed zeros) make re-association, distribution, constant folding and single rounding visible; these cases are also compared with the model under the operator semantics Pat/Ieee.v (exact result rounded to binary64, ties to even), for which Props/C08.v proves the nesting law instance, non-associativity / non-distributivity witnesses, the reflected-form side condition and conservativity over Pat/Val.v.",
+ "note": "Trusted: Coq kernel + VM; the harness; Val.binop as a description of CPython's arithmetic on the exact (dyadic) value domain - the C08 theorems do not depend on it (operator semantics is a Section variable), only the correspondence does; and Ieee.binop_ieee (round-to-nearest-even + - * / on all finite floats) as a description of CPython's float arithmetic, validated by the correspondence only; results outside both domains (// % ** on non-dyadic floats, inf/nan, complex, huge ints) are judged by the oracle only and discarded from the model comparison; the sign of a zero is judged by the oracle only, and not under a unary minus (property text undecided). After the first exception the operand streams are no longer aligned (the left operand has advanced, the right has not): the law is judged up to and including the first StopIteration/exception.",
 }
 
 PYOP = {"+": operator.add, "-": operator.sub, "*": operator.mul, "/": operator.truediv, "//": operator.floordiv,
@@ -84,7 +85,7 @@ def elem(x, i, streams):
             return "stop"
         if "r" in o:
             return ("r", o["r"])
-        return ("y", from_json(o["y"]))
+        return ("y", obs_value(o["y"]))
     if is_pat(x) or isinstance(x, (tuple, list, dict)):
         raise CannotJudge(repr(x))
     return ("y", x)
@@ -110,21 +111,66 @@ def ctor_raises(x):
     return False
 
 
-def canon(o):
-    """typed canonical text of an outcome (True, 1 and 1.0 are three different observations)"""
+def neg_zero(v):
+    return type(v) is float and v == 0.0 and math.copysign(1.0, v) < 0
+
+
+def canon(o, signed=True):
+    """typed canonical text of an outcome (True, 1 and 1.0 are three different observations).  A float is its
+    integer ratio, which is exact for every finite binary64 except that it cannot tell -0.0 from 0.0: a negative
+    zero carries the mark "z" (as in the observations of impl/c08_impl.py) when `signed`."""
     if o == "stop":
         return "stop"
     if o[0] == "r":
         return "raise " + o[1]
-    return "value " + json.dumps(value_to_json(o[1]), sort_keys=True)
+    j = value_to_json(o[1])
+    if signed and neg_zero(o[1]):
+        j = {"f": [0, 1], "z": 1}
+    return "value " + json.dumps(j, sort_keys=True)
 
 
-def canon_obs(o):
+def canon_obs(o, signed=True):
     if o == "stop":
         return "stop"
     if "r" in o:
         return "raise " + o["r"]
-    return "value " + json.dumps(o["y"], sort_keys=True)
+    y = o["y"]
+    if not signed and isinstance(y, dict) and "z" in y:
+        y = {"f": y["f"]}
+    return "value " + json.dumps(y, sort_keys=True)
+
+
+def obs_value(y):
+    """the Python value of an observation of impl/c08_impl.py (the sign of a zero kept)"""
+    if isinstance(y, dict) and y.get("z"):
+        return -0.0
+    return from_json(y)
+
+
+def describe(text, o):
+    """canonical text, plus repr and float.hex for a float value (the comparison itself is on the canonical text)"""
+    v = None
+    if isinstance(o, tuple) and o[0] == "y":
+        v = o[1]
+    elif isinstance(o, dict) and "y" in o and isinstance(o["y"], dict) and "f" in o["y"]:
+        v = obs_value(o["y"])
+    if type(v) is float and math.isfinite(v):
+        return "%s (= %r = %s)" % (text, v, v.hex())
+    return text
+
+
+def has_neg(x):
+    return any(isinstance(n, Unary) and n.op == "neg" for _, n in nodes(x))
+
+
+def resumes_after_stop(stream):
+    seen_stop = False
+    for o in stream:
+        if o == "stop":
+            seen_stop = True
+        elif seen_stop and isinstance(o, dict) and "y" in o:
+            return True
+    return False
 
 
 def judge(case, streams):
@@ -143,14 +189,25 @@ def judge(case, streams):
     if not obs or canon_obs(obs[0]) != "value null":
         return {"index": "constructor", "expected": "an object", "observed": canon_obs(obs[0]) if obs else "nothing"}
     ended = None
+    # the sign of a zero is judged (bit-for-bit floats) unless the expression contains a unary minus: the property
+    # text says "the Python operator" (-0.0 for 0.0) and names the mechanism 0 - self (0.0 for 0.0): undecided.
+    # The sign of a zero operand can only show in the sign of a zero result, so nothing else is affected.
+    signed = not has_neg(case.expr)
+    # an operand that itself gives a value again after its own StopIteration (PSeries with a pattern-valued length
+    # does) has no defined end: "ends as soon as either operand ends" is then judged up to the first StopIteration
+    # only (found by seed 6: -PSeries(False, -1, PSequence([0, 9.0], 1)) gives StopIteration, 0, StopIteration ...)
+    resumes = any(resumes_after_stop(streams[to_source(n)]) for _, n in nodes(case.expr)
+                  if isinstance(n, E) and to_source(n) in streams)
     for i, o in enumerate(obs[1:]):
         if ended == "stop":
+            if resumes:
+                break
             if canon_obs(o).startswith("value"):
                 return {"index": i, "expected": "StopIteration (an operand has ended)", "observed": canon_obs(o)}
             continue
         want = elem(case.expr, i, streams)
-        if canon(want) != canon_obs(o):
-            return {"index": i, "expected": canon(want), "observed": canon_obs(o)}
+        if canon(want, signed) != canon_obs(o, signed):
+            return {"index": i, "expected": describe(canon(want, signed), want), "observed": describe(canon_obs(o, signed), o)}
         if want == "stop":
             ended = "stop"
         elif want[0] == "r":
@@ -319,10 +376,237 @@ def model_case_ok(c):
     return not ctor_raises(c.expr)
 
 
+# ---- rounding-sensitive strata ----------------------------------------------------------------------------
+# On ints (and on the quarter-multiples of the strata above) the Python operators obey the laws of the rationals:
+# (x + c1) + c2 = x + (c1 + c2), (x + y) * c = x*c + y*c, x / c = x * (1/c), (x * c1) * c2 = x * (c1 * c2) ...
+# so an implementation that re-associates, distributes, folds constants, or evaluates in higher precision and
+# rounds once is indistinguishable there.  On floats every operator rounds, and none of these laws holds.  Each
+# theme is a small pool from which BOTH the stream values and the scalars at every level of one expression are
+# drawn, so that the interesting coincidences (cancellation, ties, half-ulp sums) actually occur.
+FP_THEMES = {
+    "decimal": [0.1, 0.2, 0.3, 0.7, 1.1, 2.5, 0.01, 1 / 3, -0.1, -0.3, 1, 3, 10, 100, 0.6, 1e-3],
+    "cancel": [1e16, -1e16, 1.0, -1.0, 0.5, 3, 1e-16, 2.5, 1e15, -1, 7, 1e16 + 2, 0.1],
+    "near2p53": [float(2 ** 53), float(2 ** 53 + 2), float(2 ** 53 - 1), -float(2 ** 53), 4.0, 1, 2, 3, -1,
+                 2 ** 53 + 1, 1.0, 0.5, float(2 ** 52) + 0.5],
+    "scale": [3.0, 7.0, 10.0, 0.1, 1e-3, 1e3, 49, 1 / 7, 6, 1.5, 1e30, 1e-30, 0.3, 1e22, 1e23],
+    "zeros": [0.0, -0.0, 0, 1, -1, 1.0, -1.0, 0.5, -2, 2.0, False, True, -0.0, 1e-320],
+    "tiny": [5e-324, 2.2250738585072014e-308, 1e-300, 0.5, 3, 1e300, 2.0, 0.1, 1e-310, 7, 1.5, 1e308, 1e-308],
+    "ints": [0, 1, -1, 2, 3, 7, -5, 12, True, 2 ** 53 + 1, 10 ** 18, 6, 4],
+}
+CMPS = ["==", "!=", "<", ">", "<=", ">="]
+FP_FAMILIES = {                                          # operators used at the levels of one expression
+    "additive": ["+", "+", "+", "-", "-"],
+    "multiplicative": ["*", "*", "*", "/", "/"],
+    "distributive": ["+", "-", "*", "*", "/"],
+    "intdiv": ["//", "%", "//", "%", "*", "+", "-"],
+    "power": ["**", "**", "*", "/"],
+    "shift": ["<<", ">>", "<<", ">>", "*", "+"],
+    "compare": ["+", "-", "*", "/"],                     # a comparison (or &) at the root, arithmetic below
+    "free": list(PYOP) + ["&"],
+}
+FAMILY_WEIGHTS = [("additive", 4), ("multiplicative", 4), ("distributive", 4), ("intdiv", 2), ("power", 1),
+                  ("shift", 1), ("compare", 3), ("free", 3)]
+
+
+class FpGen:
+    def __init__(self, rng):
+        self.rng = rng
+
+    def value(self, theme):
+        r = self.rng
+        v = r.choice(FP_THEMES[theme])
+        if type(v) is not bool and r.random() < 0.25:   # a relative of a pool member
+            k = r.choice([-1, 2, 0.5, 10, 3, 0.1])
+            if theme == "ints":
+                k = r.choice([-1, 2, 3, 10])
+            try:
+                w = v * k
+                if not (type(w) is float and not math.isfinite(w)) and not (type(w) is int and w.bit_length() > 80):
+                    v = w
+            except OverflowError:
+                pass
+        return v
+
+    def leaf(self, theme, n=None):
+        r = self.rng
+        n = n or r.randint(3, 6)
+        xs = [None if r.random() < 0.1 else self.value(theme) for _ in range(n)]
+        return E("PSequence", xs, 1 if r.random() < 0.9 else SYS_MAXSIZE)
+
+    def small_rhs(self, sym):
+        """exponents / shift counts: literal and small (Python would compute astronomically large ints)"""
+        r = self.rng
+        if sym == "**":
+            pool = [0, 1, 2, 3, 2, 3, 0.5, -1, 2.0, -2, True]
+        else:
+            pool = [0, 1, 2, 3, 4, 1, 2, -1, True, 1.0]  # -1: ValueError, 1.0: TypeError
+        if r.random() < 0.25:
+            return E("PSequence", [r.choice(pool) for _ in range(r.randint(3, 5))], 1)
+        return r.choice(pool)
+
+    def join(self, sym, sub, theme, depth):
+        """one more level above `sub`: sub o x or x o sub, x a scalar (mostly) or a pattern"""
+        r = self.rng
+        if sym in SMALL_RHS:
+            return Infix(sym, sub, self.small_rhs(sym))
+        k = r.random()
+        other = self.value(theme) if k < 0.65 else self.leaf(theme) if k < 0.9 or depth <= 1 \
+            else self.node(depth - 1, theme, "free")
+        if sym == "&" and not is_pat(other):
+            return Infix(sym, sub, other)                 # scalar & p does not build
+        e = Infix(sym, sub, other) if r.random() < 0.55 else Infix(sym, other, sub)
+        if r.random() < 0.04 and sym != "&":             # the constructor called directly
+            return E([c for c, s in CLS2SYM.items() if s == sym][0], e.lhs, e.rhs)
+        return e
+
+    def node(self, depth, theme, family):
+        r = self.rng
+        if depth <= 0:
+            return self.leaf(theme)
+        sub = self.node(depth - 1, theme, family)
+        e = self.join(r.choice(FP_FAMILIES[family]), sub, theme, depth)
+        if r.random() < 0.06:
+            e = Unary(r.choice(["neg", "abs"]), e)
+        return e
+
+    def tree(self, depth, theme, family):
+        e = self.node(depth - 1 if family == "compare" else depth, theme, family)
+        if family == "compare":
+            sym = self.rng.choice(CMPS + CMPS + CMPS + ["&"])
+            if sym in CMPS and self.rng.random() < 0.6:
+                c = threshold(self.rng, e, self.value(theme))
+                e = Infix(sym, e, c) if self.rng.random() < 0.55 else Infix(sym, c, e)
+            else:
+                e = self.join(sym, e, theme, depth)
+        return e
+
+
+CHAIN_PAIRS = [(a, b) for a in "+-" for b in "+-"] + [(a, b) for a in "*/" for b in "*/"] + \
+              [(a, b) for a in "+-" for b in "*/"] + [(a, b) for a in "*/" for b in "+-"] + \
+              [(a, b) for a in ("//", "%") for b in ("//", "%")] + [("*", "//"), ("//", "*"), ("+", "%"), ("*", "%")] + \
+              [("**", "**"), ("*", "**"), ("**", "*")] + [(a, b) for a in ("<<", ">>") for b in ("<<", ">>")] + \
+              [("+", "<"), ("-", ">="), ("*", "=="), ("/", "<="), ("+", "!="), ("*", ">"), ("-", "=="), ("/", "<")] + \
+              [("<", "+"), ("==", "*"), ("+", "&")]
+
+
+def threshold(rng, inner, default):
+    """a comparison is only sensitive to rounding at its boundary: compare with a value the operand actually takes
+    (the inner expression evaluated level by level at one of its elements) or with a float next to it"""
+    if rng.random() < 0.25:
+        return default
+    try:
+        o = elem(inner, rng.randrange(3), {})
+    except CannotJudge:
+        return default
+    if o == "stop" or o[0] != "y" or type(o[1]) not in (int, float) or (type(o[1]) is float and not math.isfinite(o[1])):
+        return default
+    v = o[1]
+    k = rng.random()
+    if type(v) is float and k < 0.4:
+        return math.nextafter(v, math.inf if k < 0.2 else -math.inf)
+    return v
+
+
+def chain_cases(rng, fg, reps):
+    """two operators applied one after the other to one stream, a scalar at each level, in the four written
+    forms ((p o1 c1) o2 c2, c2 o2 (p o1 c1), (c1 o1 p) o2 c2, c2 o2 (c1 o1 p)), over every theme"""
+    out = []
+    for rep in range(2 * reps):
+        for o1, o2 in (CHAIN_PAIRS if rep % 2 == 0 else CHAIN_PAIRS[:16]):     # the 16 pairs over + - * / twice
+            for form in ("ll", "lr", "rl", "rr"):
+                for theme in FP_THEMES:
+                    if (o1 in ("<<", ">>") or o2 in ("<<", ">>")) and theme not in ("ints", "zeros", "near2p53"):
+                        continue
+                    if theme == "tiny" and rng.random() < 0.6:  # subnormals / overflow: 1000-bit rationals in the model
+                        continue
+                    p = fg.leaf(theme)
+                    c1 = fg.small_rhs(o1) if o1 in SMALL_RHS else fg.value(theme)
+                    c2 = fg.small_rhs(o2) if o2 in SMALL_RHS else fg.value(theme)
+                    if o1 in SMALL_RHS and form[0] == "r" or o2 in SMALL_RHS and form[1] == "r" or o2 == "&" and form[1] == "r":
+                        continue
+                    inner = Infix(o1, p, c1) if form[0] == "l" else Infix(o1, c1, p)
+                    if o2 in CMPS:
+                        c2 = threshold(rng, inner, c2)
+                    e = Infix(o2, inner, c2) if form[1] == "l" else Infix(o2, c2, inner)
+                    out.append(Case(e, [("next", 0)] * (leaf_len(p) + 2 if leaf_len(p) < 20 else 8), "fp-chain",
+                                    {"theme": theme, "family": "%s then %s" % (o1, o2), "form": form}))
+    return out
+
+
+def fp_tree_cases(rng, fg, n):
+    out = []
+    fams = [f for f, w in FAMILY_WEIGHTS for _ in range(w)]
+    themes = [t for t in FP_THEMES for _ in range(1 if t == "tiny" else 2)]
+    for i in range(n):
+        family = fams[i % len(fams)]
+        theme = rng.choice(["ints", "zeros", "near2p53"]) if family == "shift" else themes[(i // len(fams)) % len(themes)] \
+            if rng.random() < 0.8 else rng.choice(themes)
+        depth = rng.choice([2, 2, 2, 3, 3, 3, 3, 4]) if rng.random() >= 0.03 else 5
+        e = fg.tree(depth, theme, family)
+        out.append(Case(e, [("next", 0)] * 8, "fp-nested", {"theme": theme, "family": family}))
+    return out
+
+
+def run_impl8(run, cases, shards=12):
+    """as pat_common.run_impl, on impl/c08_impl.py: the expression travels as its Python source text as well (the
+    JSON form, floats as integer ratios, would lose the sign of a literal -0.0), observations mark negative zeros"""
+    if not cases:
+        return
+    parts = [cases[i::shards] for i in range(shards) if cases[i::shards]]
+    payloads = [{"cases": [{"expr": to_json(c.expr), "source": to_source(c.expr), "ops": [list(o) for o in c.ops]}
+                           for c in part]} for part in parts]
+    outs = run.impl_parallel("c08_impl", payloads)
+    for part, out in zip(parts, outs):
+        for c, r in zip(part, out["cases"]):
+            c.obs = r["obs"]
+            c.status = r.get("status")
+
+
+IEEE_HEADER = HEADER.replace("Pat.Script ", "Pat.Script Pat.Ieee ").replace(
+    "check_trace Val.binop", "check_trace Ieee.binop_ieee").replace("trace Val.binop", "trace Ieee.binop_ieee")
+assert "Pat.Ieee" in IEEE_HEADER and IEEE_HEADER.count("Ieee.binop_ieee") == 2
+
+
+_val_coq = _pc.val_coq
+
+
+def val_coq_ieee(v):
+    """every finite float has an image: the literal is (mkf m e) = m * 2^e, m odd (short whatever the magnitude:
+    Coq reads a 300-digit numeral in about half a second)"""
+    if type(v) is float and math.isfinite(v):
+        n, d = v.as_integer_ratio()
+        if n == 0:
+            return "(mkf 0 0)"
+        if d == 1:
+            e = (n & -n).bit_length() - 1
+            return "(mkf %s %d)" % (zlit(n >> e), e)
+        return "(mkf %s (-%d))" % (zlit(n), d.bit_length() - 1)
+    return _val_coq(v)
+
+
+@contextlib.contextmanager
+def ieee_model():
+    """inside: the shared runner (run_model, model_trace, shrink) compares with the operator semantics
+    Pat/Ieee.v binop_ieee, and every finite binary64 literal has an image (no small-dyadic restriction)"""
+    saved = (_pc.HEADER, _pc.val_coq)
+    _pc.HEADER, _pc.val_coq = IEEE_HEADER, val_coq_ieee
+    try:
+        yield
+    finally:
+        _pc.HEADER, _pc.val_coq = saved
+
+
 # ---- the check -------------------------------------------------------------------------------------------
 def check(run):
     rng = run.rng
     thorough = run.tier == "thorough"
+    import time
+    t0 = [time.time()]
+    phase = {}
+
+    def lap(name):
+        phase[name] = round(time.time() - t0[0], 1); t0[0] = time.time()
+        run.cov["phase_seconds"] = phase
     sigs = run.impl("pat_impl", {"signatures": list(REGISTRY)})["signatures"]
     stale = {cls for cls, _ in check_registry(run, sigs)}
     for cls in sorted(stale):
@@ -347,24 +631,33 @@ def check(run):
         e = tg.tree(rng.choice([1, 2]))
         script_cases.append(Case(e, gen_ops(rng, False), "script"))
 
+    # rounding-sensitive strata (generated last: the cases above are the same as before for a given seed)
+    fg = FpGen(rng)
+    fp_cases = chain_cases(rng, fg, 6 if thorough else 1) + fp_tree_cases(rng, fg, 20000 if thorough else 800)
+
     # operand streams of the non-literal leaves: a fresh instance of the leaf, run on its own
     leaves = {}
     for x in tg.opaque:
         leaves.setdefault(to_source(x), x)
     leaf_cases = [Case(x, [("next", 0)] * NEXTS, "leaf") for x in leaves.values()]
-    run_impl(run, cases + script_cases + leaf_cases)
+    run_impl8(run, cases + script_cases + leaf_cases + fp_cases)
     streams = {to_source(c.expr): c.obs[1:] for c in leaf_cases
                if not c.status and c.obs and canon_obs(c.obs[0]) == "value null"}
+    lap("generate+implementation")
 
     # ---- oracle
     explained = set()
-    for c in cases:
+    for c in cases + fp_cases:
         run.count()
         sym, form = root_sig(c.expr)
         run.dist("op.%s" % sym); run.dist("form.%s" % form); run.dist("stream.%s" % c.tag)
         run.dist("depth.%d" % depth_of(c.expr))
         if c.tag == "single":
             run.dist("kind.%s" % c.meta["kind"]); run.dist("len.%s" % c.meta["len"])
+        if c.tag.startswith("fp-"):
+            run.dist("fp.theme.%s" % c.meta["theme"]); run.dist("fp.family.%s" % c.meta["family"])
+            if not c.status and rounding_visible(c):
+                run.dist("fp.rounding-visible")
         if c.status:
             run.discard("impl-" + c.status)
             continue
@@ -381,9 +674,11 @@ def check(run):
             report(run, c, dev, streams)
     run.sample({"expr": to_source(cases[len(cases) // 2].expr), "observed": cases[len(cases) // 2].obs_pretty()})
 
+    lap("oracle")
     # ---- model
     allc = [c for c in cases + script_cases if model_case_ok(c) and not (stale and uses(c.expr, stale))]
     run_model(run, allc)
+    lap("model")
     for c in script_cases:
         run.count(); run.dist("stream.script")
     for c in allc:
@@ -391,6 +686,31 @@ def check(run):
             run.discard((c.status or "?").split(":")[0])
         elif c.verdict == "agree":
             run.cov["traces_validated_against_impl"] += 1
+    disagreements(run, allc, explained, streams)
+
+    # ---- model, rounding-sensitive strata: operator semantics Pat/Ieee.v (round to nearest even)
+    fpc = [c for c in fp_cases if model_case_ok(c)]
+    with ieee_model():
+        run_model(run, fpc, chunk=100)
+        for c in fpc:
+            if c.verdict == "discard":
+                run.discard("ieee-" + (c.status or "?").split(":")[0])
+            elif c.verdict == "agree":
+                run.cov["traces_validated_against_impl"] += 1
+                run.cov["traces_validated_with_rounding_model"] = run.cov.get("traces_validated_with_rounding_model", 0) + 1
+        disagreements(run, fpc, explained, streams)
+    lap("model-ieee")
+    run.cov["rule"] = ("one case = one operator expression (Python source text) and its next() outputs up to the end; "
+                       "non-trivial = the expression produced at least one value; distinct by expression text")
+    run.cov["strata"] = ("16 operator symbols x {pp, ps, sp} x {int, float, mixed, rests, bool} x {equal, left-shorter, right-shorter, empty}; "
+                         "raising operands; unary; nested depth 2-5; non-literal operand patterns; helper scripts; "
+                         "rounding-sensitive: two-operator chains (%d operator pairs x 4 written forms x %d value themes) and nested "
+                         "trees depth 2-5 per operator family, scalars at every level, floats compared bit-for-bit"
+                         % (len(CHAIN_PAIRS), len(FP_THEMES)))
+
+
+def disagreements(run, allc, explained, streams):
+    """model and implementation disagree on a case the oracle accepted: shrink, judge the shrunk case, else report"""
     bad = [c for c in allc if c.verdict == "disagree" and id(c) not in explained]
     seen = set()
     for c in bad[:3]:
@@ -401,21 +721,54 @@ def check(run):
         seen.add(json.dumps(sig))
         dev = None
         try:
-            dev = judge(small, streams)
+            run_impl8(run, [small], shards=1)
+            if not small.status:
+                dev = judge(small, streams)
         except CannotJudge:
             pass
         if dev is not None:
             report(run, small, dev, streams)
             continue
         run.violation(sig, {
-            "broken": "correspondence Pat/Step.v (step of PBinOp/PAnd/PAbs, Pat/Dunder.v) vs isobar/pattern/core.py: "
-                      "the theorems of Props/C08.v no longer speak about this code",
+            "broken": "correspondence Pat/Step.v (step of PBinOp/PAnd/PAbs, Pat/Dunder.v; operator semantics %s) vs "
+                      "isobar/pattern/core.py: the theorems of Props/C08.v no longer speak about this code"
+                      % ("Pat/Ieee.v binop_ieee" if _pc.HEADER is IEEE_HEADER else "Pat/Val.v binop"),
             "case": {"expr": to_source(small.expr), "expr_json": to_json(small.expr), "ops": [list(o) for o in small.ops]},
             "observed": small.obs_pretty(), "model": model_trace(run, small),
             "python": replay_snippet(small.expr, small.ops)}, found_input=False)
-    run.cov["rule"] = ("one case = one operator expression (Python source text) and its next() outputs up to the end; "
-                       "non-trivial = the expression produced at least one value; distinct by expression text")
-    run.cov["strata"] = "16 operator symbols x {pp, ps, sp} x {int, float, mixed, rests, bool} x {equal, left-shorter, right-shorter, empty}; raising operands; unary; nested depth 2-5; non-literal operand patterns; helper scripts"
+
+
+def exact_elem(x, i):
+    """the i-th value of an expression over literal leaves in exact rational arithmetic (+ - * / only), or None"""
+    if isinstance(x, Infix) and x.op in ("+", "-", "*", "/"):
+        a, b = exact_elem(x.lhs, i), exact_elem(x.rhs, i)
+        if a is None or b is None or (x.op == "/" and b == 0):
+            return None
+        return PYOP[x.op](a, b)
+    if isinstance(x, E) and is_literal(x) and x.cls == "PSequence":
+        xs, rep = x.args
+        v = xs[i % len(xs)] if xs and i < len(xs) * rep else None
+    elif is_pat(x):
+        return None
+    else:
+        v = x
+    if isinstance(v, (int, float)) and (type(v) is not float or math.isfinite(v)):
+        return Fraction(v)
+    return None
+
+
+def rounding_visible(c):
+    """measured, for the evidence: some output of the case is a float that differs from the exact rational value
+    of the expression, i.e. the case can tell level-by-level rounding from any other evaluation order"""
+    for i, o in enumerate(c.obs[1:]):
+        if isinstance(o, dict) and isinstance(o.get("y"), dict) and "f" in o["y"]:
+            try:
+                q = exact_elem(c.expr, i)
+            except (OverflowError, ZeroDivisionError):
+                q = None
+            if q is not None and isinstance(o["y"]["f"], list) and q != Fraction(*o["y"]["f"]):
+                return True
+    return False
 
 
 def uses(x, classes):
@@ -437,7 +790,7 @@ def report(run, c, dev, streams):
         if path and is_pat(n) and depth_of(n) >= 1:
             sub = Case(n, c.ops, c.tag)
             try:
-                run_impl(run, [sub], shards=1)
+                run_impl8(run, [sub], shards=1)
                 if not sub.status and judge(sub, streams) is not None:
                     culprit = sub
                     break
@@ -464,7 +817,7 @@ def replay(run, doc):
         if isinstance(n, E) and n.cls not in CLS2SYM and n.cls != "PAbs":
             leaves.setdefault(to_source(n), n)
     leaf_cases = [Case(x, [("next", 0)] * NEXTS, "leaf") for x in leaves.values()]
-    run_impl(run, [c] + leaf_cases, shards=1)
+    run_impl8(run, [c] + leaf_cases, shards=1)
     streams = {to_source(l.expr): l.obs[1:] for l in leaf_cases if l.obs}
     try:
         dev = judge(c, streams)
